@@ -253,6 +253,11 @@ class Validator:
             if not path or key not in d["__position__"]:
                 # position for the root object is stored in the root of the dict
                 pd = d["__position__"]
+                if path and isinstance(path[-1], str):
+                    # a nested block e.g. WEB or METADATA records its own position
+                    child = d[key] if key in d else None
+                    if isinstance(child, dict) and "__position__" in child:
+                        pd = child["__position__"]
             else:
                 pd = d["__position__"][key]
                 if isinstance(pd, list):
